@@ -56,6 +56,8 @@ MENU = {
     "ret-false": _ret(False), "ret-0": _ret(0), "ret-empty": _ret(""), "ret-none": _ret(None), "ret-emptylist": _ret([]),
     "raise-listed": _raise(ListedError), "raise-sublisted": _raise(SubListedError), "raise-unlisted": _raise(UnlistedError),
     "raise-valueerror": _raise(ValueError), "even-ints": _ints_only(),
+    "raise-keyerror": _raise(KeyError), "raise-lookuperror": _raise(LookupError), "raise-indexerror": _raise(IndexError),
+    "raise-typeerror": _raise(TypeError),
 }
 
 
@@ -163,7 +165,8 @@ SEEDS = {
     "ipv6": ["::1", "::", "1::", "1:2:3:4:5:6:7:8", "1:2:3:4:5:6:7::", "::1.2.3.4", "1:2:3:4:5:6:1.2.3.4", "fe80::1%eth0", "::1%", "::1/64", "1:2:3:4:5:6:7:8:9", "12345::", ":::", "1::2::3", "g::1", ":1", "1:", "::ffff:01.2.3.4", "0:0:0:0:0:0:0:0", "ABCD:ef01::", "1:2:3:4:5:6:7", "::1.2.3", "１::"],
     "date": ["2020-01-01", "2020-02-29", "2019-02-29", "2000-02-29", "1900-02-29", "2020-13-01", "2020-00-10", "2020-04-31", "20200101", "2020-W01-1", "2020-1-1", "0000-01-01", "0001-01-01", "9999-12-31", "2020-01-01T00:00:00", " 2020-01-01", "2020-01-01\n", "２０２０-01-01", "2020/01/01", "10000-01-01"],
     "email": ["a@b", "@", "ab", "", "a@b@c", "é@ü"],
-    "regex": ["a", "(", "a{2}", "a{99999999999}", "[", "(?P<x>a)(?P=x)", "\\", "a**", "(" * 400, "[a-", "(?i)a", "\\d+", "a{2,1}"],
+    "regex": ["a", "(", "a{2}", "a{99999999999}", "[", "(?P<x>a)(?P=x)", "\\", "a**", "(" * 400, "[a-", "(?i)a", "\\d+", "a{2,1}",
+              "(?<=a*)b", "(?<=a|bc)d", "(?<!\\d+)\\.", "(?<=ab)c", "(?<!a)b", "(?P<n>a)(?P<n>b)", "(?P=missing)", "\\1", "(a)\\2", "a(?#comment", "(?z)", "\\p{L}", "[[:alpha:]]"],
     "time": ["12:00:00", "24:00:00", "1:2:3", "12:00", "12:00:60", "ab", " 12:00:00", "12:00:00Z"],
     "idn-hostname": ["example.com", "ex ample", "日本語.jp", "-a.com", "a" * 70 + ".com", "", ".", "xn--", "a..b", "٠.com"],
 }
@@ -285,13 +288,14 @@ def c12(ctx):
             for k in range(ctx.r.randrange(1, 4)):
                 fname = ctx.r.choice(["myfmt", "email", "other", "", "ipv4"])
                 key = ctx.r.choice(sorted(MENU))
-                raises = ctx.r.choice([(), ListedError, (ListedError, KeyError), ValueError])
+                raises = ctx.r.choice([(), ListedError, (ListedError, KeyError), ValueError, KeyError, LookupError, (ValueError, TypeError)])
                 if fname in custom:
                     continue
                 custom[fname] = (MENU[key][0], raises)
                 spec.append([fname, "oracle:" + key, impl_raises(raises)])
         known = [] if spec is None else (sorted(impl.make_fc(spec, tag, custom).checkers) if spec is not None else [])
-        name = ctx.r.choice(known + ["unknown-format", "", "myfmt", "email"]) if ctx.r.random() < 0.8 else ctx.r.choice(["nope", "date", "regex"])
+        name = (ctx.r.choice(known + ["unknown-format", "", "myfmt", "email"]) if ctx.r.random() < 0.7
+                else ctx.r.choice(["nope", "date", "regex", "ip-address", "host-name", "hostname", "ipv4", "ipv6", "color", "date-time", "time", "uri", "IPV4", "ipv4 "]))
         schema = {"format": name}
         if ctx.r.random() < 0.3:
             schema["type"] = ctx.r.choice(["string", "integer", "object"])
